@@ -7,6 +7,7 @@ not decided.
 """
 import ast
 
+from ..match import facts, Q
 from ..srcmodel import (attr_chain, call_name, unparse, norm_text, walk_no_nested,
                         Model, ModuleInfo)
 from ..cfg import cfg_of, CFG
@@ -243,8 +244,8 @@ def r2_own_key(run):
         if isinstance(s, ast.Assign) and isinstance(s.value, ast.Call) and \
                 call_name(s.value) == "RSASigner" and \
                 unparse(arg_of(s.value, 1, "key")) == "sigkey":
-            gsd = {(unparse(e), p) for e, p, _ in gcfg.guards(nd.id)}
-            run.check(("sigkey", True) in gsd, "R2", gs.qual + "::sigkey-guard",
+            gsd = facts(gcfg, nd.id)
+            run.check(Q("sigkey", True) in gsd, "R2", gs.qual + "::sigkey-guard",
                       "an explicit key is used only when one was given",
                       "explicit key used under %s" % sorted(gsd), gs.loc(s),
                       nontrivial=False)
@@ -357,7 +358,7 @@ def r3_sibling_agreement(run):
         s = nd.ast
         if isinstance(s, ast.Assign) and unparse(s.targets[0]) == "_order" and \
                 not is_falsy_const(s.value):
-            gs = {(unparse(e), p) for e, p, _ in scfg.guards(nd.id)}
+            gs = facts(scfg, nd.id)
             want_g = ("typ == 'SAMLRequest'", unparse(s.value) == "REQ_ORDER")
             run.check(want_g in gs, "R3", sg.qual + "::_order=" +
                       unparse(s.value), "selected by message kind",
@@ -367,7 +368,7 @@ def r3_sibling_agreement(run):
     for nd in vcfg.by_kind("stmt"):
         s = nd.ast
         if isinstance(s, ast.Assign) and unparse(s.targets[0]) == "_order":
-            gs = {(unparse(e), p) for e, p, _ in vcfg.guards(nd.id)}
+            gs = facts(vcfg, nd.id)
             kind = "SAMLRequest" if unparse(s.value) == "REQ_ORDER" else \
                 "SAMLResponse"
             run.check(("'%s' in saml_msg" % kind, True) in gs, "R3",
@@ -429,8 +430,8 @@ def r4_verdict(run):
                   "verdict is signer.verify(...)",
                   "a possibly truthy result derives from %s" %
                   sorted(repr(a) for a in atoms), vf.loc(r.ast))
-        gs = {(unparse(e), p) for e, p, _ in cfg.guards(r.id)}
-        run.check(("saml_msg['SigAlg'] in SIGNER_ALGS", True) in gs, "R4",
+        gs = facts(cfg, r.id)
+        run.check(Q("saml_msg['SigAlg'] in SIGNER_ALGS", True) in gs, "R4",
                   vf.qual + "::known-algorithm",
                   "verified only for an algorithm in SIGNER_ALGS",
                   "verification result returned under %s" % sorted(gs),
